@@ -45,6 +45,10 @@ Definition handler_logs_ok : bool := forallb entry_safe gen.T07.HANDLER_LOGS.
    that raises makes the handler itself raise *)
 Definition helper_ok : bool := forallb (fun p => caught gen.T07.HELPER_GETATTR_CATCHES (XE p)) all_exn.
 
+Definition all_kinds : list cbkind := [KCallback; KPlugin; KPluginRegexp].
+Definition callback_fw_ok : bool :=
+  forallb (fun k => fw_cb k s_outFilter && fw_cb k s_inFilter && fw_cb k s_call) all_kinds.
+
 Definition tables_ok : bool :=
   handler_logs_ok && helper_ok &&
   (* Irc.isChannel hands an ISUPPORT entry to ircutils.isChannel only when it is not None (repair of C07.F45): a 005
@@ -54,7 +58,10 @@ Definition tables_ok : bool :=
   (* Irc.takeMsg is firewalled and its _truncateMsg encodes the message: an unencodable one is logged and dropped
      there, so that data.encode() in _sendIfMsgs (outside every try) only ever sees encodable text *)
   fw_irc s_takeMsg && gen.T07.TRUNCATE_ENCODES &&
-  fw_irc s_feedMsg && fw_cb s_outFilter && fw_total &&
+  (* every kind of callback class — derived from irclib.IrcCallback, callbacks.Plugin or callbacks.PluginRegexp — gets the
+     firewall around the inFilter / __call__ / outFilter it defines: MetaFirewall's merge, computed over the class table *)
+  callback_fw_ok &&
+  fw_irc s_feedMsg && fw_total &&
   swallows_all gen.T07.FEED_ADDMSG_CATCHES && swallows_all gen.T07.FEED_INFILTER_CATCHES &&
   swallows_all gen.T07.FEED_CALLBACK_CATCHES &&
   forallb (fun s => Nat.eqb (length s) 3) gen.T07.NICK_SETTERS &&
@@ -86,8 +93,14 @@ Lemma T_trunc : gen.T07.TRUNCATE_ENCODES = true.
 Proof. vm_compute. reflexivity. Qed.
 Lemma T_feed : fw_irc s_feedMsg = true.
 Proof. vm_compute. reflexivity. Qed.
-Lemma T_out : fw_cb s_outFilter = true.
+Lemma T_cbfw : callback_fw_ok = true.
 Proof. vm_compute. reflexivity. Qed.
+Lemma T_out k : fw_cb k s_outFilter = true.
+Proof.
+  pose proof T_cbfw as H. unfold callback_fw_ok in H. rewrite forallb_forall in H.
+  assert (Hk : In k all_kinds) by (destruct k; cbn; tauto).
+  specialize (H k Hk). apply andb_true_iff in H as [H _]. apply andb_true_iff in H as [H _]. exact H.
+Qed.
 Lemma T_fw : fw_total = true.
 Proof. vm_compute. reflexivity. Qed.
 Lemma T_add : swallows_all gen.T07.FEED_ADDMSG_CATCHES = true.
